@@ -508,4 +508,79 @@ def run(tier):
     # extended master secret on session-id resumption (RFC 7627 5.3): shared with C14
     from rules import C14
     C14.rule_R1e(res, prog, prop=PROP, rid="C07.R5e")
+    rule_R6(res, prog)
     return res.finish()
+
+
+def rule_R6(res, prog):
+    """Suite vs version (RFC 5246 A.5 / 7.4.1.2, RFC 8446 B.4, RFC 5246 1.2): sslGetCipherSpec - the one function through
+    which both roles obtain ssl->cipher (R2) - returns a table row only on paths on which each forbidden pairing of the
+    negotiated version and the row's attributes was excluded by a branch outcome:
+      A  a version below TLS 1.2 negotiated  with a SHA-256 / SHA-384 suite,
+      B  TLS 1.3 negotiated                  with a suite that is neither a TLS 1.3 suite nor the NULL suite,
+      C  server without TLS 1.3 enabled      with a TLS 1.3 suite,
+      D  TLS 1.2 / 1.3 negotiated            with an MD5 suite.
+    Paths on which the configured version set is still undefined (cache lookup during resumption) are exempt, as the
+    function's own comment states."""
+    from sa import cfgutil as cu
+    rid = "C07.R6"
+    res.rule(rid, "sslGetCipherSpec returns a row only if the pairing of negotiated version and suite attributes is allowed (4 pairings)")
+    fn = prog.fn("sslGetCipherSpec")
+    E = prog.enums
+    F = prog.const
+    NG = "(ssl->activeVersion & %d)" % E["v_tls_negotiated"]
+    act = lambda m: "(ssl->activeVersion & %d)" % m
+    sup = lambda m: "(ssl->supportedVersions & %d)" % m
+    fl = lambda m: "(supportedCiphers[i].flags & %d)" % m
+    v13 = E["v_tls_1_3_any"]
+    v12p = E["v_dtls_1_2"] | E["v_tls_1_2"] | v13
+    CS13 = F("CS_TLS13")
+    combos = {
+        "A (version below TLS 1.2 with a SHA-2 suite)": (
+            [(act(E["v_tls_no_sha2"]), False), (NG, False)],
+            [[(fl(F("CRYPTO_FLAGS_SHA2")), False), (fl(F("CRYPTO_FLAGS_SHA3")), False)]]),
+        "B (TLS 1.3 with a non-TLS 1.3 suite)": (
+            [(act(v13), False), (NG, False)],
+            [[("(supportedCiphers[i].type != %d)" % CS13, False)], [("supportedCiphers[i].type", False)]]),
+        "C (server without TLS 1.3 and a TLS 1.3 suite)": (
+            [(sup(v13), True), ("(ssl->flags & 1)", False), ("((ssl->flags & 1) ? 1 : 0)", False)],
+            [[("(supportedCiphers[i].type == %d)" % CS13, False)]]),
+        "D (TLS 1.2 / 1.3 with an MD5 suite)": (
+            [(act(v12p), False), (NG, False)],
+            [[(fl(F("CRYPTO_FLAGS_MD5")), False)]]),
+    }
+
+    def watch(txt):
+        return "activeVersion" in txt or "supportedVersions" in txt or "supportedCiphers[i].flags" in txt or \
+            "supportedCiphers[i].type" in txt or txt in ("(ssl->flags & 1)", "((ssl->flags & 1) ? 1 : 0)")
+    outs, rets = cu.returns_with_atoms(fn, watch, limit=400000)
+    nsucc = 0
+    bad = {}
+    for (ln, rid_, atoms) in outs:
+        x = rets[rid_]
+        e = strip(x.get("e")) if x.get("e") is not None else None
+        while e is not None and e.get("k") == "cast":
+            e = strip(e["e"])
+        if e is None or (e.get("k") == "int" and e["v"] == 0):
+            continue
+        if ("ssl->supportedVersions", False) in atoms:
+            continue                      # configured versions not known yet: exempt (documented in the function)
+        nsucc += 1
+        for name, (ver_excl, attr_excl) in combos.items():
+            if any(a in atoms for a in ver_excl):
+                continue
+            if any(all(a in atoms for a in grp) for grp in attr_excl):
+                continue
+            bad.setdefault(name, (ln, sorted(a for a in atoms if "Version" in a[0])))
+    if nsucc == 0:
+        raise AnalysisBroken("C07.R6: no row-returning path of sslGetCipherSpec found")
+    for name in combos:
+        f_ = None
+        if name in bad:
+            ln, at = bad[name]
+            f_ = Finding(PROP, rid, fn.name, "pairing %s not excluded" % name.split(" ")[0],
+                         "%s:%s sslGetCipherSpec(): a path returns the table row (line %s) without a branch outcome that excludes pairing %s "
+                         "(version outcomes on the path: %s): the suite becomes ssl->cipher for a protocol version that does not allow it" % (
+                             fn.relfile, ln, ln, name, at), file=fn.relfile, line=ln)
+        res.instance(rid, "sslGetCipherSpec: pairing %s excluded on all %d row-returning path classes" % (name, nsucc), name not in bad, finding=f_)
+    res.floor(rid, 4)
